@@ -466,6 +466,28 @@ def body_extractor(ctx, case):
                       lambda: "region %s holds %d lines, %d detections (over passes %r) lie wholly inside it; " % (reg.id, len(reg.lines), want, passes) + desc())
             if want >= 2 and case["multi"]:
                 ctx.event("several_passes_place_lines_in_a_given_region")
+    if not case["simple"] and not case["detect_regions"] and case["detect_lines"] and out.regions:
+        # a second pass over the same page object after its regions were re-drawn (what a layout post-processing step or an
+        # editor does between two analyses): the lines must then lie inside the polygons the regions have *now*
+        boxes = []
+        for reg in out.regions:
+            P = np.asarray(reg.polygon, dtype=np.float64)
+            lo, hi = P.min(axis=0), P.max(axis=0)
+            c, half = (lo + hi) / 2.0, (hi - lo) / 4.0 + 1.0
+            box = [(float(c[0] - half[0]), float(c[1] - half[1])), (float(c[0] + half[0]), float(c[1] - half[1])),
+                   (float(c[0] + half[0]), float(c[1] + half[1])), (float(c[0] - half[0]), float(c[1] + half[1]))]
+            reg.polygon = np.asarray(box, dtype=np.float64)
+            boxes.append(box)
+        with warnings.catch_warnings():
+            warnings.simplefilter("ignore")
+            out2 = ctx.must("extractor_raises", ex.process_page, img, out)
+        ids2 = [l.id for l in out2.lines_iterator()]
+        ctx.check(len(ids2) == len(set(ids2)), "duplicate_line_ids", lambda: "second pass: ids %r; " % (ids2,) + desc())
+        scale = 1 + max([abs(x) for r in base["regions"] for p in r["poly"] for x in p] + [1.0])
+        for reg, box in zip(out2.regions, boxes):
+            for line in reg.lines:
+                check_placed_line(ctx, line, None, box, 1e-6 * scale, lambda: "second pass after region %s was re-drawn as %r; " % (reg.id, box) + desc(), check_piece=False)
+        ctx.event("second_pass_after_regions_were_redrawn")
     n_lines = len(ids)
     if len(base["regions"]) >= 2 and n_lines >= 2 and (case["multi"] or case["merge_lines"]):
         ctx.nontrivial(repr(case))
